@@ -9,10 +9,12 @@ package storage
 // its metadata and every file of the closed ones, and opens as a TSDB with the same segments.
 
 import (
+	"context"
 	"fmt"
 	"os"
 	"path/filepath"
 	"sort"
+	"strings"
 	"sync"
 	"sync/atomic"
 	"testing"
@@ -36,9 +38,113 @@ func listFiles(root string) []string {
 	return out
 }
 
+// closedCopyVersusReopen: the copy of an idle-closed segment while a reader/writer reopens that very segment and
+// changes one of its tables (generation swap: gen1-* files replaced by gen2-* files, one state change of the
+// table). Whoever comes first, the snapshot call succeeds and holds the table's state before or after the change.
+var reopenNs atomic.Int64
+
+func closedCopyVersusReopen(s *verifh.Sink, base string) {
+	const nFiles = 3000
+	for c := 0; c < verifh.Pick(30, 600); c++ {
+		r := verifh.Rand("c19seg-reopen", c)
+		dir := freshVDir(base)
+		clock := timestamp.NewMockClock()
+		t0 := time.Date(2024, 5, 10, 12, 0, 0, 0, time.UTC)
+		clock.Set(t0)
+		v, err := openVDB(dir, clock, dbOpts{interval: IntervalRule{DAY, 1}, ttl: IntervalRule{DAY, 365}, shards: 1, idle: time.Millisecond, disableRetention: true})
+		if err != nil {
+			s.Violation("c19seg:open", map[string]any{"err": err.Error()})
+			continue
+		}
+		var target *segment[*vTable, any]
+		for i := 1; i < 2; i++ { // one segment only: the snapshot call is the copy of this closed segment
+			sg, err := v.db.CreateSegmentIfNotExist(time.Unix(0, t0.Add(-time.Duration(i)*24*time.Hour).UnixNano()))
+			if err != nil {
+				s.Violation("c19seg:create", map[string]any{"err": err.Error()})
+				continue
+			}
+			if tab, err := sg.CreateTSTableIfNotExist(common.ShardID(0)); err == nil && i == 1 {
+				for k := 0; k < nFiles; k++ {
+					os.WriteFile(filepath.Join(tab.root, fmt.Sprintf("gen1-%04d.bin", k)), []byte("x"), 0o644)
+				}
+				target = sg.(*segment[*vTable, any])
+			}
+			sg.DecRef()
+		}
+		time.Sleep(3 * time.Millisecond)
+		v.sc.closeIdleSegments()
+		target.mu.Lock()
+		closed := target.index == nil
+		target.mu.Unlock()
+		if !closed {
+			s.Inconclusive("the target segment did not idle-close")
+			v.db.Close()
+			os.RemoveAll(dir)
+			continue
+		}
+		dst := dir + ".snapshot"
+		os.RemoveAll(dst)
+		delay := time.Duration(r.Intn(120000)) * time.Microsecond
+		var wg sync.WaitGroup
+		wg.Add(1)
+		var werr error
+		go func() {
+			defer wg.Done()
+			time.Sleep(delay)
+			w0 := time.Now()
+			if werr = target.incRef(context.Background()); werr != nil {
+				return
+			}
+			reopenNs.Store(int64(time.Since(w0)))
+			tabs, _ := target.Tables()
+			for _, tab := range tabs {
+				tab.swapGeneration(1, 2, nFiles)
+			}
+			target.DecRef()
+		}()
+		// the reopen alone takes milliseconds (the series index is opened): the copy starts anywhere around the change
+		time.Sleep(time.Duration(r.Intn(15000)) * time.Microsecond)
+		c0 := time.Now()
+		created, serr := v.db.TakeFileSnapshot(dst)
+		snapDur := time.Since(c0)
+		wg.Wait()
+		if c < 5 {
+			s.Note(fmt.Sprintf("closed-copy case %d: snapshot call took %v, the writer's reopen took %v", c, snapDur, time.Duration(reopenNs.Load())))
+		}
+		detail := map[string]any{"case": c, "writer_delay": delay.String()}
+		gens := map[string]int{}
+		for _, f := range listFiles(filepath.Join(dst, filepath.Base(target.location))) {
+			if bn := filepath.Base(f); strings.HasPrefix(bn, "gen") {
+				gens[bn[:4]]++
+			}
+		}
+		detail["generation_files_in_the_copy"] = fmt.Sprint(gens)
+		switch {
+		case werr != nil:
+			s.Violation("c19seg:closed-copy:reopen-fails", map[string]any{"case": c, "err": werr.Error()})
+		case serr != nil:
+			detail["err"] = serr.Error()
+			s.Violation("c19seg:closed-copy:snapshot-call-fails", detail)
+		case !created:
+			s.Violation("c19seg:closed-copy:snapshot-reports-nothing", detail)
+		case !(gens["gen1"] == nFiles && gens["gen2"] == 0) && !(gens["gen2"] == nFiles && gens["gen1"] == 0):
+			s.Violation("c19seg:closed-copy:mixture-of-two-table-states", detail)
+		}
+		s.Count("c19seg.closed_copies_racing_a_reopen", 1)
+		if gens["gen2"] == nFiles {
+			s.Count("c19seg.closed_copies_that_hold_the_state_after_the_change", 1)
+		}
+		s.Case(fmt.Sprint("closed-copy/", c, delay), true)
+		v.db.Close()
+		os.RemoveAll(dst)
+		os.RemoveAll(dir)
+	}
+}
+
 func TestVerifC19Segments(t *testing.T) {
 	s := verifh.S()
 	base := filepath.Join(verifh.Scratch(), "c19seg")
+	closedCopyVersusReopen(s, base)
 	for c := 0; c < verifh.Pick(40, 1200); c++ {
 		r := verifh.Rand("c19seg", c)
 		dir := freshVDir(base)
